@@ -26,6 +26,7 @@ func Run(c *hx.Ctx) {
 	partBigSynth(c)
 	partBigFault(c)
 	partPairs(c)
+	partCaseCollision(c)
 	partKnown(c)
 }
 
